@@ -414,6 +414,137 @@ fn sweep(states: &[State], specs: &[LayoutSpec], n_steps: usize) -> Acc {
     Acc::merge_all(accs.into_iter().map(|(a, _)| a).collect())
 }
 
+/// Legs outside the cell grid: (1) evidence stored under file names whose 8-character slot is not the
+/// key-id prefix of any signature in the file; (2) authorised-key lists with repeated ids; (3) one
+/// key listed under two ids (same material, with and without a hash-algorithm list). In all of them
+/// the number of distinct authorised keys with valid evidence is known by construction.
+fn extra_legs(acc: &mut Acc) {
+    use in_toto::crypto::{KeyId, PublicKey};
+    use std::str::FromStr;
+    let f = functionaries();
+    let (a, b) = (f[0], f[1]);
+    let owner = keys::get("ed6");
+    let dir = util::fresh_dir("c02x");
+    let clear = |dir: &Path| {
+        for e in std::fs::read_dir(dir).unwrap().flatten() {
+            let _ = std::fs::remove_file(e.path());
+        }
+    };
+    let link_by = |k: &Key| world::block_text(&world::sign_link(base_link("s0"), &[k]));
+    let id_of = |k: &PublicKey| serde_json::to_value(k.key_id()).unwrap().as_str().unwrap().to_string();
+    // ---- (1) misfiled evidence
+    let pa = a.prefix();
+    let slots: Vec<(String, String)> = vec![
+        ("eight-dots".into(), "........".into()),
+        ("dots+partial-prefix".into(), format!(".....{}", &pa[..3])),
+        ("partial-prefix+.link".into(), format!("{}.link", &pa[..3])),
+        ("prefix-upper-case".into(), pa.to_uppercase()),
+        ("prefix-of-another-functionary".into(), b.prefix()),
+        ("prefix-shifted".into(), format!(".{}", &pa[..7])),
+        ("prefix-last-char-changed".into(), format!("{}{}", &pa[..7], if pa.ends_with('0') { '1' } else { '0' })),
+        ("spaces".into(), "        ".into()),
+        ("zeros".into(), "00000000".into()),
+    ];
+    for with_proper_b in [false, true] {
+        for (sname, slot) in &slots {
+            if sname == "prefix-upper-case" && pa.to_uppercase() == pa {
+                continue;
+            }
+            if with_proper_b && sname == "prefix-of-another-functionary" {
+                continue;
+            }
+            for thr in [1u32, 2] {
+                clear(&dir);
+                world::write(&dir, &format!("s0.{slot}.link"), &link_by(a));
+                if with_proper_b {
+                    world::write(&dir, &world::link_file("s0", b), &link_by(b));
+                }
+                let counting = if with_proper_b { 1 } else { 0 };
+                let lay = world::sign_layout(world::layout(vec![world::step("s0", thr, &[a, b])], vec![], &[a, b], world::far_future()), &[owner]);
+                acc.evaluations += 1;
+                acc.traces += 1;
+                acc.nontrivial += 1;
+                acc.states += 1;
+                let v = world::verify(&lay, world::owner_map(&[owner]), &dir);
+                let must_reject = counting < thr.max(1);
+                acc.outcome(&format!("impl-{}/model-{}", v.tag(), if must_reject { "reject" } else { "accept" }));
+                let w = || json!({"kind": "misfiled", "file_name": format!("s0.{slot}.link"), "signed_by": "A", "proper_link_of_B_present": with_proper_b, "threshold": thr, "pubkeys": ["A", "B"]});
+                match &v {
+                    Verdict::Ok(_) if must_reject => acc.violation(&format!("counted:misfiled-name:{sname}"), &format!("a link signed by A but stored as s0.{slot}.link (no signature in it carries that prefix) counted towards the threshold"), w),
+                    Verdict::Panic(l, m) => acc.violation(&format!("panic:{l}"), &format!("verification panicked at {l}: {m}"), w),
+                    _ => {}
+                }
+            }
+        }
+    }
+    // ---- (2) repeated ids in the authorised list
+    for (pk, present, thr) in [
+        (vec![0usize, 0], vec![0usize], 2u32),
+        (vec![0, 0], vec![0], 1),
+        (vec![0, 0, 1], vec![0], 2),
+        (vec![0, 0, 1], vec![0, 1], 3),
+        (vec![0, 0, 1], vec![0, 1], 2),
+        (vec![0, 1, 0], vec![0], 2),
+        (vec![1, 0, 0], vec![0], 2),
+        (vec![0, 0, 0], vec![0], 3),
+        (vec![0, 0, 0], vec![0], 2),
+    ] {
+        clear(&dir);
+        for i in &present {
+            world::write(&dir, &world::link_file("s0", f[*i]), &link_by(f[*i]));
+        }
+        let keys_list: Vec<&Key> = pk.iter().map(|i| f[*i]).collect();
+        let lay = world::sign_layout(world::layout(vec![world::step("s0", thr, &keys_list)], vec![], &[a, b], world::far_future()), &[owner]);
+        let distinct: BTreeSet<usize> = pk.iter().copied().filter(|i| present.contains(i)).collect();
+        let must_reject = (distinct.len() as u32) < thr.max(1);
+        acc.evaluations += 1;
+        acc.traces += 1;
+        acc.nontrivial += 1;
+        acc.states += 1;
+        let v = world::verify(&lay, world::owner_map(&[owner]), &dir);
+        acc.outcome(&format!("impl-{}/model-{}", v.tag(), if must_reject { "reject" } else { "accept" }));
+        let w = || json!({"kind": "repeated-pubkeys", "pubkeys": pk.iter().map(|i| FN_NAMES[*i]).collect::<Vec<_>>(), "links_present": present.iter().map(|i| FN_NAMES[*i]).collect::<Vec<_>>(), "threshold": thr});
+        match &v {
+            Verdict::Ok(_) if must_reject => acc.violation("counted:key-listed-twice", "a key id listed twice among the authorised keys of a step counted twice towards the threshold", w),
+            Verdict::Panic(l, m) => acc.violation(&format!("panic:{l}"), &format!("verification panicked at {l}: {m}"), w),
+            _ => {}
+        }
+    }
+    // ---- (3) one key under two ids: A (hash-algorithm list [sha256, sha512]) and A2 (the same
+    // material, no list) are both in the key table and both authorised; A's link exists once under
+    // each id (the second is a copy with the key id replaced - nobody needs the private key for that)
+    let a2 = PublicKey::from_ed25519(a.public().as_bytes().to_vec()).expect("guise");
+    let a2_id = id_of(&a2);
+    for (with_b, thr) in [(false, 2u32), (true, 3), (true, 2), (false, 1)] {
+        clear(&dir);
+        world::write(&dir, &world::link_file("s0", a), &link_by(a));
+        let mut copy = world::block_value(&world::sign_link(base_link("s0"), &[a]));
+        copy["signatures"][0]["keyid"] = json!(a2_id);
+        world::write(&dir, &format!("s0.{}.link", &a2_id[..8]), &copy.to_string());
+        if with_b {
+            world::write(&dir, &world::link_file("s0", b), &link_by(b));
+        }
+        let st = world::step("s0", thr, &[a, b]).add_key(KeyId::from_str(&a2_id).unwrap());
+        let mut l = world::layout(vec![st], vec![], &[a, b], world::far_future());
+        l.keys.insert(a2.key_id().clone(), a2.clone());
+        let lay = world::sign_layout(l, &[owner]);
+        let distinct = if with_b { 2 } else { 1 };
+        let must_reject = distinct < thr.max(1);
+        acc.evaluations += 1;
+        acc.traces += 1;
+        acc.nontrivial += 1;
+        acc.states += 1;
+        let v = world::verify(&lay, world::owner_map(&[owner]), &dir);
+        acc.outcome(&format!("impl-{}/model-{}", v.tag(), if must_reject { "reject" } else { "accept" }));
+        let w = || json!({"kind": "one-key-two-ids", "pubkeys": ["A", "B", "A2 = A's key material without a hash-algorithm list"], "links_present": if with_b { json!(["A", "A relabelled A2", "B"]) } else { json!(["A", "A relabelled A2"]) }, "threshold": thr});
+        match &v {
+            Verdict::Ok(_) if must_reject => acc.violation("counted:one-key-under-two-ids", "one functionary key that the layout lists under two key ids (same key material, with and without a hash-algorithm list) counted twice towards the threshold of a step", w),
+            Verdict::Panic(l, m) => acc.violation(&format!("panic:{l}"), &format!("verification panicked at {l}: {m}"), w),
+            _ => {}
+        }
+    }
+}
+
 pub fn run(tier: Tier) -> i32 {
     let mut c = Check::new("C02", "model_checking", tier);
     // one step: all 16 authorised subsets x thresholds 0..3
@@ -443,6 +574,8 @@ pub fn run(tier: Tier) -> i32 {
     acc.states += states2.len() as u64;
     acc.transitions += tr2;
     bound += &format!("; 2 steps: BFS depth {depth2} = {} populations x {} layouts", states2.len(), specs2.len());
+    extra_legs(&mut acc);
+    bound += "; misfiled evidence: 9 file-name slots x (alone / next to a proper link) x thresholds 1,2; 9 authorised lists with a repeated id; one key under two ids x 4 (population, threshold) pairs";
     c.acc = acc;
     c.bound_completed = bound;
     c.rule = "state = link-directory population: per (step, functionary in {A,B in key table; C not in key table; D in key table}) one of absent / tampered / sublayout / garbage / a link with one or two signature entries over {own-valid, own-invalid, other-valid, other-invalid, unrelated-valid} in every order (34 cells); transition = set one cell; every state is run through in_toto_verify for every layout (authorised subset x threshold); non-trivial = population with at least one non-valid file".into();
@@ -453,6 +586,11 @@ pub fn run(tier: Tier) -> i32 {
 }
 
 pub fn replay(case: &Value) -> Value {
+    if case.get("kind").is_some() {
+        let mut acc = Acc::new();
+        extra_legs(&mut acc);
+        return json!({"note": "the three small legs are re-run as a whole", "violations": acc.violations.keys().collect::<Vec<_>>(), "violation": acc.violations.keys().next()});
+    }
     let steps = case["steps"].as_array().cloned().unwrap_or_default();
     let mut spec = LayoutSpec { steps: vec![] };
     let mut st = State { cells: vec![] };
